@@ -618,7 +618,28 @@ def check_C19(res):
     return "pairs and triples (a,b,c) from a shared name pool with case variants, trailing junk and truncations; equals evaluated in both argument orders, reflexivity/symmetry/transitivity are trace conjuncts; RdataSetOwned::from_iter([a,b,c,a]) must keep Dedup's first members in order"
 
 
+def check_C15(res):
+    q = res.tier == "quick"
+    trace_stage(res, ["reader", res.seed, 3000 if q else 80000], "TraceReader", "reader", ["C15"])
+    return "hand-built messages (questions, compressed owners, A/NS/MX/SRV/unknown records, RDLENGTH-0 NS) and real server responses, each also mutated (truncation at any offset, count changes, corrupted lengths/pointers), driven by 1-13 random reader calls (read/skip question, read/skip/peek+skip/peek+parse/peek+drop/peek owner, mark, rewind); a sequence is non-trivial when at least one call succeeds past the header"
+
+
+def check_C12(res):
+    q = res.tier == "quick"
+    trace_stage(res, ["writer", res.seed, 2500 if q else 80000], "TraceWriter", "writer", ["C12"])
+    return "random sequences of 3-40 writer operations (header setters, questions, RRs and RRsets in all sections with truthful hints, nine RDATA shapes incl. SOA/SRV/CH A/unknown/invalid, set_limit, three compression modes, set_edns, extended RCODEs up to 65535, clear_rrs) on buffers of 40-4096 octets so that truncation is frequent"
+
+
+def check_C13(res):
+    q = res.tier == "quick"
+    trace_stage(res, ["writer", res.seed + 7, 2500 if q else 80000], "TraceWriter", "writer", ["C13"])
+    server_stage(res, "resolve", 2 if q else 40, ["C13"])
+    return "the writer sequences of C12 over a name pool with shared suffixes and case variants (every pointer of every finished message is checked), plus all server responses of the resolve profile"
+
+
 CHECKS = {
+    "C12": check_C12, "C13": check_C13,
+    "C15": check_C15,
     "C18": check_C18, "C19": check_C19,
     "C17": check_C17,
     "C14": check_C14, "C16": check_C16,
